@@ -2,7 +2,8 @@
    All theorems are about Disagg.mf_by_group / mf_overall / call / build_frame, the definitions the
    correspondence run evaluates; they hold for EVERY cell type and EVERY family of metric callables fn. *)
 From Coq Require Import QArith ZArith List Bool.
-From FL Require Import Num ListX Disagg Disagg_proofs.
+From FL Require Import Num ListX Disagg Disagg_proofs Disagg_ext Disagg_ext_proofs.
+From FLGen Require Gen_disagg.
 Import ListNotations.
 Open Scope Z_scope.
 
@@ -93,6 +94,154 @@ Theorem C01_param_collision_refuted :
   /\ ~ NoDup (map fst (all_assigns Z yt yp coll_ms sfs [])).
 Proof. exact param_collision. Qed.
 Print Assumptions C01_param_collision_refuted.
+
+(* ---------------------------------------------------------------------------------------------------
+   Tie to the source (translators/t_disagg.py regenerates FLGen.Gen_disagg from /repo on every run).
+   Each theorem is stated ON the generated fragment; `exact` succeeds only while the fragment is
+   convertible to the model's rule.
+   --------------------------------------------------------------------------------------------------- *)
+
+(* DisaggregatedResult._apply_functions + AnnotatedMetricFunction.__call__: with the source's own
+   - test for "no grouping" (whole frame),
+   - test for re-indexing to the Cartesian product (`len(grouping_names) > 1`),
+   - index levels (np.unique of every grouping column),
+   - fill value of reindex (none: NaN row),
+   - positional / keyword argument assembly of the call,
+   the parameterised pipeline IS Disagg.apply_functions, the function all C01 theorems are about *)
+Theorem C01_src_grouping_rule :
+  forall (V : Type) (key_of : V -> Z) (cell : Type)
+         (fn : name -> list (list V) -> list (name * list V) -> cell) f afs gs,
+    apply_functions_with V key_of cell (Gen_disagg.call_src V cell fn) Gen_disagg.early_return
+                         Gen_disagg.reindex_cond Gen_disagg.reindex_fill Gen_disagg.reindex_levels f afs gs
+    = apply_functions V key_of cell fn f afs gs.
+Proof. exact apply_functions_with_model. Qed.
+Print Assumptions C01_src_grouping_rule.
+
+(* the rule itself, spelled out: product of levels exactly when there are at least two grouping columns;
+   a product key without rows gets no fill value; the call passes y_true, y_pred positionally and each
+   sample parameter under its own keyword *)
+Theorem C01_src_rule_values :
+  (forall n, Gen_disagg.reindex_cond n = (1 <? n)%nat)
+  /\ (forall n, Gen_disagg.early_return n = (n =? 0)%nat)
+  /\ (forall A, @Gen_disagg.reindex_fill A = None)
+  /\ (forall kcols, Gen_disagg.reindex_levels kcols = map zuniq kcols)
+  /\ (forall V cell fn af df, Gen_disagg.call_src V cell fn af df = call V cell fn af df).
+Proof. repeat split. Qed.
+Print Assumptions C01_src_rule_values.
+
+(* DisaggregatedResult.create: overall is grouped by the control features, by_group by control ++ sensitive *)
+Theorem C01_src_create_grouping :
+  forall (V : Type) (key_of : V -> Z) (cell : Type)
+         (fn : name -> list (list V) -> list (name * list V) -> cell) yt yp ms sfs cfs,
+    mf_overall V key_of cell fn yt yp ms sfs cfs
+    = apply_functions V key_of cell fn (build_frame V yt yp ms sfs cfs) (map (annot_of V) ms)
+                      (Gen_disagg.overall_grouping (map fst cfs) (map fst sfs))
+    /\ mf_by_group V key_of cell fn yt yp ms sfs cfs
+       = apply_functions V key_of cell fn (build_frame V yt yp ms sfs cfs) (map (annot_of V) ms)
+                         (Gen_disagg.by_group_grouping (map fst cfs) (map fst sfs)).
+Proof. exact create_grouping_model. Qed.
+Print Assumptions C01_src_create_grouping.
+
+(* MetricFrame._extract_result and the feature-name bases, regenerated, are the model's *)
+Theorem C01_src_extract_and_names :
+  (forall cell c hc ncl names (t : table cell),
+      Gen_disagg.extract_src c hc ncl names t = extract_result c hc ncl names t)
+  /\ Gen_disagg.sf_base_src = sf_base /\ Gen_disagg.cf_base_src = cf_base.
+Proof. repeat split. Qed.
+Print Assumptions C01_src_extract_and_names.
+
+(* ---------------------------------------------------------------------------------------------------
+   _extract_result and feature names (model: Disagg_ext.extract_result, feature_names)
+   --------------------------------------------------------------------------------------------------- *)
+
+(* unwrapping only selects, no value changes: a dict of metrics is returned as is; for a bare callable the
+   result is column 0 -- same index, each entry is the first metric's entry of that row, a NaN row stays
+   NaN -- or, for `overall` without control features, the single entry of the single row *)
+Theorem C01_extract_preserves :
+  forall (cell : Type) (t : table cell) names hc ncl,
+    extract_result false hc ncl names t = XSame t
+    /\ (forall nm rest, names = nm :: rest -> hc || ncl = true ->
+          exists c, extract_result true hc ncl names t = XColumn nm c
+                    /\ map fst c = map fst t
+                    /\ forall k, assoc k c = option_map (option_map row_at0) (assoc k t))
+    /\ (forall k e r, t = [(k, Some (e :: r))] -> hc || ncl = false ->
+          extract_result true hc ncl names t = XScalar (snd e)).
+Proof. exact extract_preserves. Qed.
+Print Assumptions C01_extract_preserves.
+
+(* bare callable: what the user reads in mf.by_group is, key by key, the callable on exactly the rows of
+   that key (or NaN for a product key without rows), in a Series named after the callable *)
+Theorem C01_callable_by_group :
+  forall (cell V : Type) (key_of : V -> Z) (fn : name -> list (list V) -> list (name * list V) -> cell)
+         yt yp (m : metric_spec V) sfs cfs tbl,
+    NoDup (map fst (all_assigns V yt yp [m] sfs cfs)) -> sfs <> [] ->
+    mf_by_group V key_of cell fn yt yp [m] sfs cfs = Some tbl ->
+    let keys := feature_keys V key_of (cfs ++ sfs) (length yt) in
+    exists c, extract_result true (negb (is_nil cfs)) true [m_name m] tbl = XColumn (m_name m) c
+      /\ map fst c = map fst tbl
+      /\ forall k, In k (map fst tbl) ->
+           assoc k c = Some (if kmem k keys
+                             then Some (Some (expected_cell V cell fn yt yp m (sel (mask_of k keys))))
+                             else None).
+Proof. exact callable_by_group. Qed.
+Print Assumptions C01_callable_by_group.
+
+(* bare callable: mf.overall is the callable's value on all rows (no control features: a scalar) ... *)
+Theorem C01_callable_overall :
+  forall (cell V : Type) (key_of : V -> Z) (fn : name -> list (list V) -> list (name * list V) -> cell)
+         yt yp (m : metric_spec V) sfs,
+    NoDup (map fst (all_assigns V yt yp [m] sfs [])) ->
+    option_map (extract_result true false false [m_name m]) (mf_overall V key_of cell fn yt yp [m] sfs [])
+    = Some (XScalar (Some (expected_cell V cell fn yt yp m (fun x => x)))).
+Proof. exact callable_overall_nocontrol. Qed.
+Print Assumptions C01_callable_overall.
+
+(* ... or one entry per control-feature combination *)
+Theorem C01_callable_overall_control :
+  forall (cell V : Type) (key_of : V -> Z) (fn : name -> list (list V) -> list (name * list V) -> cell)
+         yt yp (m : metric_spec V) sfs cfs,
+    NoDup (map fst (all_assigns V yt yp [m] sfs cfs)) -> cfs <> [] ->
+    let keys := feature_keys V key_of cfs (length yt) in
+    exists tbl c, mf_overall V key_of cell fn yt yp [m] sfs cfs = Some tbl
+      /\ extract_result true (negb (is_nil cfs)) false [m_name m] tbl = XColumn (m_name m) c
+      /\ map fst c = map fst tbl
+      /\ forall k, In k (map fst tbl) ->
+           assoc k c = Some (if kmem k keys
+                             then Some (Some (expected_cell V cell fn yt yp m (sel (mask_of k keys))))
+                             else None).
+Proof. exact callable_overall_control. Qed.
+Print Assumptions C01_callable_overall_control.
+
+(* feature names: one per column of the container; a name given by the container (Series.name, DataFrame
+   column label, dict key) is used verbatim, otherwise base ++ decimal(position); generated names of
+   different positions differ, a generated sensitive name never equals a generated control name; up to
+   10 columns this is Disagg.feat_names_from *)
+Theorem C01_feature_names_spec :
+  forall base c,
+    length (feature_names base c) = length (given_names c)
+    /\ (forall i, (i < length (given_names c))%nat ->
+          nth_error (feature_names base c) i
+          = Some (match nth i (given_names c) None with Some nm => nm | None => gen_name base i end))
+    /\ (forall i, (i < 10)%nat -> gen_name base i = base ++ [48 + Z.of_nat i])
+    /\ (forall i j, gen_name base i = gen_name base j -> i = j)
+    /\ (forall i j, gen_name sf_base i <> gen_name cf_base j)
+    /\ ((length (given_names c) <= 10)%nat -> feature_names base c = feat_names_from base (given_names c) 0).
+Proof. exact feature_names_spec. Qed.
+Print Assumptions C01_feature_names_spec.
+
+(* non-vacuity of the naming / unwrapping model: a 12-column array gets a two-digit name; a bare callable
+   over two sensitive columns yields a column with a NaN entry *)
+Example C01_ext_example :
+  nth_error (feature_names sf_base (FArray2 12)) 11 = Some (sf_base ++ [49; 49])
+  /\ feature_names cf_base (FSeries (Some [120])) = [[120]]
+  /\ (let yt := [0; 3; 4; 7] in let yp := [1; 0; 1; 1] in
+      let m := {| m_name := [109]; m_prefix := n_None; m_params := [(n_sample_weight, [1; 2; 3; 4])] |} in
+      let sfs := combine (feature_names sf_base (FArray2 2)) [[0; 0; 1; 1]; [0; 0; 0; 1]] in
+      option_map (extract_result true false true [[109]])
+                 (mf_by_group Z (fun z => z) ccell (fnc [([109], 1)]) yt yp [m] sfs [])
+      = Some (XColumn [109] [([0; 0], Some (Some (CNum (1 # 3)))); ([0; 1], None);
+                             ([1; 0], Some (Some (CNum (3 # 3)))); ([1; 1], Some (Some (CNum (4 # 4))))])).
+Proof. repeat split; vm_compute; reflexivity. Qed.
 
 (* non-vacuity: two sensitive columns, an empty intersection, a single-member group, one parameter *)
 Example C01_example :
